@@ -8,7 +8,6 @@ import (
 	"bytes"
 	"fmt"
 	"sort"
-	"sync/atomic"
 
 	"github.com/Fantom-foundation/lachesis-base/common/bigendian"
 	"github.com/Fantom-foundation/lachesis-base/common/littleendian"
@@ -56,6 +55,7 @@ func main() {
 	// ---- 16 bit: all values, all pairs
 	enc16 := make([][]byte, 65536)
 	var nontriv int64
+	lead := c.Lead()
 	for v := 0; v < 65536; v++ {
 		b := bigendian.Uint16ToBytes(uint16(v))
 		enc16[v] = b
@@ -66,10 +66,12 @@ func main() {
 		if len(l) != 2 || littleendian.BytesToUint16(l) != uint16(v) {
 			c.Violation("le16-roundtrip", v, "littleendian 16-bit round trip fails for %d", v)
 		}
-		if b[0] != b[1] {
+		if b[0] != b[1] && lead {
 			nontriv += 2
 		}
-		c.Count("evaluations", 2)
+		if lead {
+			c.Count("evaluations", 2)
+		}
 	}
 	c.Parallel(65536, func(a int) {
 		for b := 0; b < 65536; b++ {
@@ -121,10 +123,13 @@ func main() {
 						prev = nx
 					}
 				}
-				atomic.AddInt64(&nontriv, nt)
+				c.Count("distinct_nontrivial", nt)
 				c.Count("evaluations", per)
 			})
-			c.Set("full32:"+e.name, done == chunks)
+			_ = done
+			c.Set("full32:"+e.name, !c.Capped())
+		} else if !lead {
+			c.Set("full32:"+e.name, false)
 		} else {
 			// stride alphabet: 2^12-windows around every power of two and the extremes
 			vals := alphabet32()
@@ -148,7 +153,7 @@ func main() {
 					}
 				}
 			}
-			atomic.AddInt64(&nontriv, int64(len(vals))-2)
+			nontriv += int64(len(vals)) - 2
 			c.Count("evaluations", int64(len(vals)))
 			c.Set("full32:"+e.name, false)
 		}
@@ -157,6 +162,9 @@ func main() {
 	// ---- 64 bit: every value whose bytes are drawn from {00,01,7f,80,ff} + 1-bit / 2-bit patterns
 	vals64 := alphabet64()
 	for _, e := range encs64 {
+		if !lead {
+			break
+		}
 		encd := make([][]byte, len(vals64))
 		for i, v := range vals64 {
 			b := e.enc(v)
@@ -175,7 +183,7 @@ func main() {
 				}
 			}
 		}
-		atomic.AddInt64(&nontriv, int64(len(vals64))-2)
+		nontriv += int64(len(vals64)) - 2
 		c.Count("evaluations", int64(len(vals64)))
 	}
 	c.Set("alphabet64_size", len(vals64))
@@ -245,9 +253,10 @@ func main() {
 			}
 		}
 	})
-	atomic.AddInt64(&nontriv, int64(len(a32)*len(a32)))
-
-	c.Set("distinct_nontrivial", nontriv)
+	if lead {
+		nontriv += int64(len(a32) * len(a32))
+	}
+	c.Count("distinct_nontrivial", nontriv)
 	c.Set("exhaustive", false)
 	c.Set("exhaustive_note", "16-bit and every full32:<name>=true encoder are enumerated completely; 64-bit values and event IDs use the stated boundary alphabets")
 	c.Sample(map[string]interface{}{"encoder": "idx.Frame", "value": 0x01ff00ff, "bytes": fmt.Sprintf("%x", idx.Frame(0x01ff00ff).Bytes())})
